@@ -149,7 +149,7 @@ namespace
         Plan generate(Rng &r, Tier tier) override
         {
             Plan p;
-            int cap = (int)r.range(2, 24), H = (int)r.range(1, 5);
+            int cap = (int)r.range(2, 24), H = (int)r.range(1, 9);
             if (r.chance(1, 4)) cap = (int)r.range(2, 5);
             bool big = r.chance(1, 25); // a wide line: columns beyond 255
             if (big) cap = (int)r.range(258, 340);
@@ -174,7 +174,7 @@ namespace
         }
         std::string describe(const Plan &p) override
         {
-            std::string s = "cap=" + std::to_string(mod(p.c(0) - 2, 400) + 2) + " hist=" + std::to_string(mod(p.c(1) - 1, 5) + 1) + " keys:";
+            std::string s = "cap=" + std::to_string(mod(p.c(0) - 2, 400) + 2) + " hist=" + std::to_string(mod(p.c(1) - 1, 9) + 1) + " keys:";
             for (auto &o : p.ops)
             {
                 int k = (int)mod(arg(o, 0), K_N);
@@ -189,7 +189,7 @@ namespace
         Result execute(const Plan &p, Trace &tr) override
         {
             Result res;
-            size_t cap = (size_t)mod(p.c(0) - 2, 400) + 2, H = (size_t)mod(p.c(1) - 1, 5) + 1;
+            size_t cap = (size_t)mod(p.c(0) - 2, 400) + 2, H = (size_t)mod(p.c(1) - 1, 9) + 1;
             std::unique_ptr<Term> term(xx ? make_term_xx() : make_term_c());
             Sink sink;
             sink.cap = cap;
